@@ -18,6 +18,7 @@ def sh(cmd, cwd=None, timeout=1800):
 def main():
     cand, sid = os.path.abspath(sys.argv[1]), sys.argv[2]
     meta = json.load(open(os.path.join(cand, "meta.json")))
+    refactor = meta.get("kind") == "refactor"     # a behaviour-preserving change: no demonstration
     wt = f"/tmp/seedconfirm-{os.getpid()}"
     rc, out = sh(f"git -C /repo worktree add --detach {wt} HEAD")
     if rc != 0:
@@ -25,12 +26,13 @@ def main():
     ok, notes = True, {}
     try:
         feats = "--features geo-types,geo-traits" if "geo" in meta.get("demo_cmd", "") else ""
-        os.makedirs(os.path.join(wt, "examples"), exist_ok=True)
-        shutil.copy(os.path.join(cand, "demo.rs"), os.path.join(wt, "examples", "demo.rs"))
-        rc, out = sh(f"cargo run --offline --example demo {feats}", cwd=wt)
-        notes["demo_clean"] = [l for l in out.splitlines() if "PROPERTY" in l][:3]
-        if not any("PROPERTY HOLDS" in l for l in notes["demo_clean"]) or any("VIOLATED" in l for l in notes["demo_clean"]):
-            ok = False
+        if not refactor:
+            os.makedirs(os.path.join(wt, "examples"), exist_ok=True)
+            shutil.copy(os.path.join(cand, "demo.rs"), os.path.join(wt, "examples", "demo.rs"))
+            rc, out = sh(f"cargo run --offline --example demo {feats}", cwd=wt)
+            notes["demo_clean"] = [l for l in out.splitlines() if "PROPERTY" in l][:3]
+            if not any("PROPERTY HOLDS" in l for l in notes["demo_clean"]) or any("VIOLATED" in l for l in notes["demo_clean"]):
+                ok = False
         rc, out = sh(f"git apply {os.path.join(cand, 'patch.diff')}", cwd=wt)
         if rc != 0:
             notes["apply"] = out; ok = False
@@ -40,10 +42,15 @@ def main():
             notes["tests"] = res
             if rc != 0 or any(" 0 failed" not in l for l in res) or not res:
                 ok = False
-            rc, out = sh(f"cargo run --offline --example demo {feats}", cwd=wt)
-            notes["demo_changed"] = [l for l in out.splitlines() if "PROPERTY" in l][:3]
-            if not any("PROPERTY VIOLATED" in l for l in notes["demo_changed"]):
-                ok = False
+            if refactor:
+                rc, out = sh("cargo build --offline --features geo-types,geo-traits", cwd=wt)
+                notes["build_with_features"] = rc == 0
+                ok = ok and rc == 0
+            else:
+                rc, out = sh(f"cargo run --offline --example demo {feats}", cwd=wt)
+                notes["demo_changed"] = [l for l in out.splitlines() if "PROPERTY" in l][:3]
+                if not any("PROPERTY VIOLATED" in l for l in notes["demo_changed"]):
+                    ok = False
             rc, out = sh("git diff --stat -- . ':!examples'", cwd=wt)
             notes["stat"] = out.strip().splitlines()[-1:] 
     finally:
@@ -54,7 +61,7 @@ def main():
         print("NOT CONFIRMED"); return 1
     dst = os.path.join(V, "seeded", sid)
     os.makedirs(dst, exist_ok=True)
-    for f in ("patch.diff", "demo.rs"):
+    for f in (("patch.diff",) if refactor else ("patch.diff", "demo.rs")):
         shutil.copy(os.path.join(cand, f), os.path.join(dst, f))
     meta["confirmed"] = {"by": "tools/seedconfirm.py", "base_commit": subprocess.run("git -C /repo rev-parse --short HEAD", shell=True, capture_output=True, text=True).stdout.strip(), **notes}
     json.dump(meta, open(os.path.join(dst, "meta.json"), "w"), indent=1)
